@@ -223,7 +223,7 @@ class LoopSpec:
     """contract-side configuration of a cut loop: invariant (callable(interp, env) -> z3 Bool or list)"""
 
     def __init__(self, inv=None, modes=('iter', 'exit'), havoc_extra=(), keep=(), at_start=None, at_end=None,
-                 at_exit=None, at_break=None, decreases=None, unroll=None, at_entry=None):
+                 at_exit=None, at_break=None, decreases=None, unroll=None, at_entry=None, inv_n=None):
         self.inv = inv
         self.modes = modes
         self.havoc_extra = havoc_extra
@@ -235,6 +235,7 @@ class LoopSpec:
         self.decreases = decreases
         self.unroll = unroll
         self.at_entry = at_entry      # (interp, env): state on arrival at the loop, before the cut
+        self.inv_n = inv_n            # (interp, env, n): invariant mentioning the ghost count n of completed iterations
 
 
 class Engine:
@@ -686,7 +687,7 @@ class Interp:
             self.lib.setitem(self, obj, key, v)
         elif isinstance(t, ast.Attribute):
             obj = self.eval(t.value, env)
-            self.lib.setattr_(self, obj, t.attr, v)
+            self.lib.setattr_(self, obj, self.mangle(t.attr), v)
         else:
             raise Unsupported('assign target %s' % t.__class__.__name__)
 
@@ -701,6 +702,21 @@ class Interp:
 
     def exec_If(self, node, env):
         c = self.truth(self.eval(node.test, env))
+        if self.term_mode and not isinstance(c, bool) and not z3.is_true(z3.simplify(c)) and not z3.is_false(z3.simplify(c)):
+            # inside a symbolic comprehension body no forking is possible: a pure `if` whose two arms both return a
+            # value is merged into an if-then-else term
+            outs = []
+            for arm in (node.body, node.orelse):
+                n_ev = len(self.path.events)
+                try:
+                    self.exec_block(arm, Env(env))
+                except _Return as r:
+                    outs.append(r.v)
+                else:
+                    raise Unsupported('if-statement inside a symbolic comprehension body that does not return on both arms')
+                if len(self.path.events) != n_ev:
+                    raise Unsupported('side effect inside a merged if-statement')
+            raise _Return(self.lib.ite(self, c, outs[0], outs[1]))
         if self.branch(c):
             self.exec_block(node.body, env)
         else:
@@ -733,6 +749,7 @@ class Interp:
     def exec_FunctionDef(self, node, env):
         outer = self.frames[-1].qualname + '.<locals>.' if self.frames and not getattr(self.frames[-1], 'is_module', False) else ''
         f = FuncDefV(node, env, self.frames[-1].module if self.frames else None, outer + node.name)
+        f.mangle_cls = getattr(self.frames[-1], 'cls', None) if self.frames else None
         if node.decorator_list:
             raise Unsupported('decorated nested function')
         env.assign(node.name, f)
@@ -760,8 +777,11 @@ class Interp:
                         f.is_property = True
                     else:
                         raise Unsupported('decorator %s' % dn)
-                cls.methods[st.name] = f
-                cenv.vars[st.name] = f
+                mname = st.name
+                if mname.startswith('__') and not mname.endswith('__'):
+                    mname = '_%s%s' % (node.name.lstrip('_'), mname)
+                cls.methods[mname] = f
+                cenv.vars[mname] = f
             elif isinstance(st, (ast.Assign, ast.AnnAssign)):
                 try:
                     self.exec(st, cenv)
@@ -1126,6 +1146,8 @@ class Interp:
             self.emit(Ev('InvCheck', label=label, when='entry', formula=spec.inv(self, env)))
         if spec.at_entry is not None:
             spec.at_entry(self, env)
+        if getattr(spec, 'inv_n', None) is not None:
+            self.emit(Ev('InvCheck', label=label, when='entry-counted', formula=spec.inv_n(self, env, z3.IntVal(0))))
 
         def feas(i):
             return True
@@ -1136,7 +1158,12 @@ class Interp:
         self.havoc_loop_state(node.body + node.orelse, env, spec, label)
         if spec.inv is not None:
             self.assume(spec.inv(self, env))
-        self.ghost.setdefault('pulled', {})
+        # ghost: number of iterations completed before this point (all of them, in exit mode)
+        n_done = self.fresh('n_' + label.split('.')[-1], IntS)
+        self.assume(n_done >= 0)
+        self.path.info['count:' + label.split('.')[-1]] = n_done
+        if getattr(spec, 'inv_n', None) is not None:
+            self.assume(spec.inv_n(self, env, n_done))
         if mode == 'iter':
             elem = src.fresh_elem(self)
             self.emit(Ev('Pull', src=src.name, elem=elem, label=label))
@@ -1161,6 +1188,8 @@ class Interp:
                 spec.at_end(self, env, captured, self.path.events[mark:])
             if spec.inv is not None:
                 self.emit(Ev('InvCheck', label=label, when='step', formula=spec.inv(self, env)))
+            if getattr(spec, 'inv_n', None) is not None:
+                self.emit(Ev('InvCheck', label=label, when='step-counted', formula=spec.inv_n(self, env, n_done + 1)))
             self.path.env = env
             raise PathEnd('iter-end')
         elif mode == 'exit':
@@ -1235,9 +1264,20 @@ class Interp:
             return b
         raise Unsupported('unbound name %s' % node.id)
 
+    def mangle(self, name):
+        """Python's private-name mangling inside class bodies: __x -> _Class__x"""
+        if name.startswith('__') and not name.endswith('__'):
+            for fn in reversed(self.frames):
+                c = getattr(fn, 'cls', None) or getattr(fn, 'mangle_cls', None)
+                if c is not None:
+                    return '_%s%s' % (c.name.lstrip('_'), name)
+                if getattr(fn, 'is_module', False):
+                    break
+        return name
+
     def eval_Attribute(self, node, env):
         obj = self.eval(node.value, env)
-        return self.lib.getattr_(self, obj, node.attr)
+        return self.lib.getattr_(self, obj, self.mangle(node.attr))
 
     def eval_slice(self, s, env):
         if isinstance(s, ast.Slice):
